@@ -112,6 +112,51 @@ Definition adjusted_src (c : gcpu) (o : gosx) (r : greason) (address : Z) (oa : 
       fold_right (fun k acc => match cand k with Some a => a | None => acc end) GAdjNone G_ADJ_ORDER
   end.
 
+(* ------------------------------------------------------------ op_analysis.rs: operand evaluation, implicit accesses, ip update *)
+(* MemoryAddressInfo::try_from_operand with the compiled constants / null-flag tests; None = Err(RegisterInvalid) *)
+Definition operand_address_src (pc : pcontext) (m : memoperand) : option addr_info :=
+  let st := match mo_base m with
+            | Some b => option_map (fun v => (v, g_op_base_null v)) (get_register pc b)
+            | None => Some (G_OP_INIT, false)
+            end in
+  match st with
+  | None => None
+  | Some (a0, nul) =>
+      let st2 := match mo_index m with
+                 | Some i => option_map (fun v =>
+                               let a1 := wrap64 (a0 + wrap64 (v * match mo_scale m with Some s => s | None => G_OP_DEFAULT_SCALE end)) in
+                               (a1, nul || g_op_index_null v a1))
+                             (get_register pc i)
+                 | None => Some (a0, nul)
+                 end in
+      match st2 with
+      | None => None
+      | Some (a1, nul2) =>
+          Some {| ai_addr := wrap64 (a1 + wrap64 (match mo_disp m with Some d => d | None => G_OP_DEFAULT_DISP end)); ai_null := nul2 |}
+      end
+  end.
+Definition implicit_access_src (k : implicit_kind) (pc : pcontext) : list addr_info :=
+  let mk := fun a => {| ai_addr := a; ai_null := g_implicit_null a |} in
+  match k with
+  | ImpNone => []
+  | ImpPushCall => match get_register pc RSP_ID with Some v => [mk (wrap64 (v + G_IMPLICIT_PUSHCALL_OFF))] | None => [] end
+  | ImpPopRet => match get_register pc RSP_ID with Some v => [mk (wrap64 (v + G_IMPLICIT_POPRET_OFF))] | None => [] end
+  end.
+Definition ip_of_src (k : ip_kind) (pc : pcontext) : option ip_update :=
+  let mk := fun a => IpUpdate {| ai_addr := a; ai_null := g_ip_null a |} in
+  match k with
+  | IpkNoUpdate => Some IpNoUpdate
+  | IpkUndetermined => None
+  | IpkReg id => option_map mk (get_register pc id)
+  | IpkRead v => option_map mk v
+  end.
+Definition analyze_dinstr_src (di : dinstr) (pc : pcontext) : option op_analysis :=
+  Some {| oa_accesses := if negb (di_memsize di) then Some []
+                         else option_map (fun l => l ++ implicit_access_src (di_implicit di) pc)
+                                         (if di_lea di then Some [] else sequence (map (operand_address_src pc) (di_ops di)));
+          oa_ip := ip_of_src (di_ip di) pc;
+          oa_regs := instr_regs (di_ops di) |}.
+
 (* ------------------------------------------------------------ from the raw records *)
 (* CrashReason::from_exception as far as the compiled GPF patterns and MemoryOperation::from_crash_reason look *)
 Definition greason_of (c : gcpu) (o : gosx) (code flags nparams info0 : Z) : greason :=
